@@ -295,7 +295,7 @@ class OldCollector(ast.NodeTransformer):
                                args=[ast.Constant(idx), ast.Dict(keys=[ast.Constant(n) for n in sorted(used)],
                                                                values=[ast.Name(id=n, ctx=ast.Load()) for n in sorted(used)])], keywords=[])
             else:
-                new = ast.Subscript(value=ast.Name(id="__old", ctx=ast.Load()), slice=ast.Constant(idx), ctx=ast.Load())
+                new = ast.Call(func=ast.Name(id="__oldget", ctx=ast.Load()), args=[ast.Constant(idx)], keywords=[])
             return ast.copy_location(new, node)
         self.generic_visit(node)
         # lazy evaluation of the logical connectives (the symbolic side is total; Python would raise on e.g. None.attr)
@@ -416,7 +416,10 @@ def run_contract(contract, fn, bindings, args=None, kwargs=None, consts=None, se
                         ns_old[k_] = snap_deep(v_)
                 vals.append(oc)
             else:
-                vals.append(snap(eval(oc, ns)))
+                try:
+                    vals.append(("val", snap(eval(oc, ns))))
+                except Exception as e:      # e.g. old(len(x)) where x does not exist yet: only an error if the clause really uses it
+                    vals.append(("err", e))
         compiled.append((i, cl, code, vals))
     ycompiled = [(i, cl) + _compile(cl) for i, cl in enumerate(contract.yields)]
     args = args or ()
@@ -487,7 +490,12 @@ def run_contract(contract, fn, bindings, args=None, kwargs=None, consts=None, se
     ens = dict(ns)
     ens.update(result=res, out=tuple(out))
     for i, cl, code, olds in compiled:
-        ens["__old"] = olds
+        def _oldget(idx, olds_=olds):
+            tag, v = olds_[idx]
+            if tag == "err":
+                raise v
+            return v
+        ens["__oldget"] = _oldget
         ens["__oldeval"] = (lambda olds_, nso: (lambda idx, b: eval(olds_[idx], dict(nso, **b))))(olds, ns_old)
         try:
             ok = eval(code, ens)
